@@ -31,6 +31,16 @@ def val(tok):
     return tok
 
 
+class Chunks:
+    """Binary stream delivered in several read() chunks."""
+
+    def __init__(self, pieces):
+        self.pieces = list(pieces)
+
+    def read(self, n=-1):
+        return self.pieces.pop(0) if self.pieces else b''
+
+
 def normalize(result):
     """Make a library result comparable: close handles, drain iterators."""
     if isinstance(result, tuple):
@@ -90,6 +100,9 @@ def impl_op(c, op):
     if name == 'set_read':
         return call(c.set, a[0], io.BytesIO(val(a[1])), expire=a[2],
                     tag=a[3], read=True)
+    if name == 'set_chunks':
+        return call(c.set, a[0], Chunks(a[1]), expire=a[2], tag=a[3],
+                    read=True)
     if name == 'add':
         return call(c.add, a[0], val(a[1]), expire=a[2], tag=a[3])
     if name == 'get':
@@ -158,6 +171,8 @@ def model_op(s, op):
         return None if name == 'setitem' else r
     if name == 'set_read':
         return s.set(a[0], val(a[1]), a[2], a[3], handle=True)
+    if name == 'set_chunks':
+        return s.set(a[0], b''.join(a[1]), a[2], a[3], handle=True)
     if name == 'add':
         return s.add(a[0], val(a[1]), a[2], a[3])
     if name == 'get':
